@@ -616,7 +616,7 @@ type replayOutcome struct {
 func replayObligation(e *Engine, u *Unit, o *Obligation, repo, dir string) (bool, string) {
 	base := filepath.Join(dir, sanitize(o.Name))
 	notePath := writeReplayNote(dir, o, "obligation not discharged")
-	if o.Result != "sat" || strings.HasPrefix(o.Name, "lemma.") {
+	if (o.Result != "sat" && o.Candidate == "") || strings.HasPrefix(o.Name, "lemma.") {
 		return false, notePath
 	}
 	fn := e.findFunc(u.name)
@@ -674,6 +674,9 @@ func doReplay(e *Engine, u *Unit, o *Obligation, fn *ssa.Function, repo string) 
 	}
 	// 2. ask the solver again, with the probes; prefer small models (short slices, zero offsets)
 	script := strings.TrimSuffix(o.scriptText, "\n")
+	if o.Result != "sat" && o.Candidate != "" {
+		script = strings.TrimSuffix(o.Candidate, "\n")
+	}
 	if i := strings.LastIndex(script, "(check-sat)"); i >= 0 {
 		script = script[:i]
 	}
